@@ -7,7 +7,7 @@ attribute: written without `=`), the original quote and the must-quote flag.  `W
 for it, `WAttr.read` is the attribute token a reader must get.
 -/
 namespace Verif.Proofs.C09HtmlTag
-open Verif.Spec.C09HtmlTok Verif.Spec.HtmlAttr Verif.Proofs.C09HtmlTok Verif.Model.HtmlAttr
+open Verif.Spec.C09HtmlTok Verif.Spec.C09HtmlShape Verif.Spec.HtmlAttr Verif.Proofs.C09HtmlTok Verif.Model.HtmlAttr
 
 structure WAttr where
   name : List Char
@@ -35,8 +35,6 @@ theorem WAttr.read_decodes (a : WAttr) :
   · exact rawOf_decode _ _ _
   · rfl
 
-/-- names that the theorems cover: not empty, lower-case, no white space, `=`, `>` (lexer contract) and no `/` (guard) -/
-def goodName (n : List Char) : Bool := !n.isEmpty && n.all nCh
 
 /-- the machine is inside a start tag at a point where the pending tag would be `pt` if `>` came now -/
 inductive Closable (m : M) : M → Tag → Prop
@@ -137,11 +135,6 @@ theorem read_attrs {m : M} (as : List WAttr) (hn : ∀ a ∈ as, goodName a.name
     refine ⟨trivial, ?_⟩
     simpa [List.append_assoc] using h4
 
-/-- tag names that the theorems cover: a lower-case ASCII letter, then lower-case bytes without white space, `>` (lexer
-    contract) or `/` (guard) -/
-def goodTag : List Char → Bool
-  | c :: cs => Verif.Spec.HtmlAttr.isAlpha c && lower c == c && cs.all tCh
-  | [] => false
 
 /-- **a start tag is read back**: from the data state, the bytes `<name` + attributes + `>` produce exactly one token —
     the start tag `name` with the attributes the writer meant, in order (minus later duplicates of a name, which the
